@@ -167,18 +167,57 @@ def sortNames (xs : List String) : List String :=
     | y :: ys => if x < y then x :: y :: ys else if x = y then y :: ys else y :: ins x ys
   xs.foldr ins []
 
+/-- Rust's derived `Ord` on `ParsingToken`: variant order, then fields (strings bytewise = by code point). -/
+def ptokKey : PTok → Nat × String × String
+  | .sens s => (0, String.ofList s, "")
+  | .insens s => (1, String.ofList s, "")
+  | .range a b => (2, String.singleton a, String.singleton b)
+  | .builtin => (3, "", "")
+
+def ptokLt (a b : PTok) : Bool :=
+  let (k1, x1, y1) := ptokKey a
+  let (k2, x2, y2) := ptokKey b
+  k1 < k2 || (k1 == k2 && (x1 < x2 || (x1 == x2 && y1 < y2)))
+
+/-- `iter().cloned().collect::<BTreeSet<_>>().into_iter().collect()`. -/
+def sortDedupToks (xs : List PTok) : List PTok :=
+  let rec ins (x : PTok) : List PTok → List PTok
+    | [] => [x]
+    | y :: ys => if ptokLt x y then x :: y :: ys else if x = y then y :: ys else y :: ins x ys
+  xs.foldr ins []
+
+def debugChar (c : Char) : String :=
+  if c = '\'' then "'\\''" else if c = '\\' then "'\\\\'" else if c = '\n' then "'\\n'"
+  else if c = '\r' then "'\\r'" else if c = '\t' then "'\\t'" else "'" ++ String.singleton c ++ "'"
+
+/-- `format!("{:?}", token)`. -/
+def debugPTok : PTok → String
+  | .sens s => "Sensitive { token: " ++ String.ofList (Views.debugStr s) ++ " }"
+  | .insens s => "Insensitive { token: " ++ String.ofList (Views.debugStr s) ++ " }"
+  | .range a b => "Range { start: " ++ debugChar a ++ ", end: " ++ debugChar b ++ " }"
+  | .builtin => "BuiltInRule"
+
+def showPA (names : List String) (pa : PAttempts) : String :=
+  let cs := pa.callStacks.map fun c =>
+    (match c.deepest with | .rule r => ruleName names r | .token => "T") ++
+    (match c.parent with | some r => "<" ++ ruleName names r | none => "")
+  let ts := fun (l : List PTok) => " ".intercalate ((sortDedupToks l).map fun t => toHexOrDash (debugPTok t))
+  s!" PA max={pa.maxPos} cs=[{" ".intercalate cs}] exp=[{ts pa.expected}] unexp=[{ts pa.unexpected}]"
+
 def showReport (names : List String) (o : Out) : String :=
   match o with
   | .ok s =>
+    if reachedCallLimit s then s!"limit {s.attemptPos}" else
     match Views.forestOf s.queue s.queue.length 0 s.queue.length with
     | some f => showForest names f
     | none => "ok <ill-formed queue>"
   | .err s =>
-    if reachedCallLimit s then s!"limit {s.attemptPos}"
+    let pa := if s.pa.enabled then showPA names s.pa else ""
+    if reachedCallLimit s then s!"limit {s.attemptPos}" ++ pa
     else
       let p := sortNames (s.posAtt.map (ruleName names))
       let n := sortNames (s.negAtt.map (ruleName names))
-      s!"err {s.attemptPos} [{",".intercalate p}] [{",".intercalate n}]"
+      s!"err {s.attemptPos} [{",".intercalate p}] [{",".intercalate n}]" ++ pa
   | .panic => "panic"
   | .fuel => "fuel"
 
